@@ -1103,10 +1103,12 @@ def _in_iq_ping(rng, variant, request):
         del attrs["type"]                                          # a ping is recognised by its namespace
     elif variant == "t":
         attrs["t"] = gen_ts(rng)
+    elif variant == "short_id":
+        attrs["id"] = "" if rng.random() < 0.7 else "0"            # whatever the id is - even empty - the pong echoes it
     return N("iq", attrs)
 
 
-_in("in.iq.get.ping", L_IQ, None, "iq", _in_iq_ping, reaction=react_pong, reaction_layer=L_IQ, variants=("addressed", "untyped", "t"),
+_in("in.iq.get.ping", L_IQ, None, "iq", _in_iq_ping, reaction=react_pong, reaction_layer=L_IQ, variants=("addressed", "untyped", "t", "short_id"),
     notes="consumed; answered with <iq type=result xmlns=w:p to=s.whatsapp.net id=same>")
 
 
